@@ -161,7 +161,7 @@ def certOk (b : Bandit Nat) : Bool :=
 /-- every fitted per-arm model carries an exact inverse (certificate for `np.linalg.inv`) -/
 def invCertOk (b : Bandit Nat) : Bool :=
   let chk (lp : LP Nat) : Bool :=
-    !lp.kind.isLinear || lp.st.all fun p => !p.2.inited || !p.2.rngPriv || isInverse p.2.A p.2.Ainv
+    !lp.kind.isLinear || lp.st.all fun p => !p.2.inited || !p.2.rngPriv || isInverseCert p.2.A p.2.Ainv
   chk b.lp && b.lps.all chk
 
 def finish (st : DState) (b : Bandit Nat) (so : StepOut Nat) (g : Rng) (isPredict : Bool) (isQuery : Bool) :
